@@ -11,8 +11,19 @@ import (
 	"sync"
 	"time"
 
+	"mosn.io/api"
+	"mosn.io/mosn/pkg/protocol/xprotocol"
+	"mosn.io/mosn/pkg/protocol/xprotocol/bolt"
+	xstream "mosn.io/mosn/pkg/stream/xprotocol"
 	"verif/xc02"
 )
+
+// RegisterBolt makes the bolt codec known to the xprotocol stream layer (what cmd/mosn/main does at start-up).
+// Safe to call more than once.
+func RegisterBolt() {
+	xprotocol.RegisterXProtocolAction(xstream.NewConnPool, xstream.NewStreamFactory, func(codec api.XProtocolCodec) {})
+	_ = xprotocol.RegisterXProtocolCodec(&bolt.XCodec{})
+}
 
 // BoltUpstream behaves per request as the header "script" says (comma separated, one behaviour per arrival of
 // the token, the last repeats): ok | sNNN (error status) | close | hang | gate | gateclose | slowN
